@@ -63,7 +63,7 @@ def render(rec):
         faulty = ci == f["c"]
         # (a header line with blanks after it is no header: trailing blanks go on metavariable lines only)
         out.append(line_text(rec["faultline"]) if faulty and f["m"] == 0 else line_text(c["hdr"]))
-        meta = [line_text(m) + trail() for m in c["meta"]]
+        meta = [line_text(m) + (trail() if m else "") for m in c["meta"]]      # (an empty line stays empty)
         if faulty and f["m"] > 0:
             # (for "notype" the offending token is the end of the line itself: blanks in front of it would move it)
             meta.insert(f["m"] - 1, line_text(rec["faultline"]) + ("" if f["k"] == "notype" else trail()))
